@@ -263,6 +263,18 @@ pub trait Socket: Sized + Send {
 
         let (endpoint, stop_handle) = transport::begin_accept(endpoint, cback).await?;
 
+        if self.binds().contains_key(&endpoint) {
+            // A host name can resolve to several addresses ("localhost" on a
+            // dual-stack machine): binding it again may succeed on the next
+            // address and yield the very same endpoint. Recording it would
+            // drop, and thereby silently stop, the listener already bound.
+            let _ = stop_handle.0.shutdown().await;
+            return Err(ZmqError::Network(std::io::Error::new(
+                std::io::ErrorKind::AddrInUse,
+                "endpoint is already bound by this socket",
+            )));
+        }
+
         if let Some(monitor) = self.backend().monitor().lock().as_mut() {
             let _ = monitor.try_send(SocketEvent::Listening(endpoint.clone()));
         }
